@@ -96,8 +96,11 @@ def symbolic_core():
             explore_unit(res2, run2)
     out.append(common.summarise(res2, [common.function_record(P._BaseField.get_tag), common.function_record(P._BaseField.is_nullable_for_version)]))
     res3 = Result("C16/core/PrimitiveField.is_nullable")
+    # types without a null form on the wire: the definition cannot make them nullable, and kio's convention
+    # "an ignorable tagged field without default is Optional" is only implementable where a null encoding exists
     never = {P.Primitive.int8, P.Primitive.int16, P.Primitive.int32, P.Primitive.int64, P.Primitive.uint16, P.Primitive.uint32,
-             P.Primitive.uint64, P.Primitive.float64}
+             P.Primitive.uint64, P.Primitive.float64, P.Primitive.bool_, P.Primitive.error_code, P.Primitive.timedelta_i32,
+             P.Primitive.timedelta_i64}
     for prim in prim_members:
         for default in (None, "-1", "x"):
             def run3(ctx, prim=prim, default=default):
@@ -117,7 +120,8 @@ def symbolic_core():
                                                                        z3.BoolVal(prim is P.Primitive.datetime_i64 and default == "-1"))
                 path_obligation(res3, ctx, f"{res3.unit}/{prim.name}/default={default}",
                                 tobool(it.truth_term(o.value)) == want if o.kind == "return" else z3.BoolVal(False),
-                                expected="nullable iff declared nullable, or ignorable tagged without default, or -1-default timestamp; never for numbers",
+                                expected="nullable iff declared nullable, or ignorable tagged without default, or -1-default timestamp; never for types "
+                                         "without a null encoding (numbers, bool, error code, durations)",
                                 got=repr(o)[:100])
                 collect(res3, ctx)
             explore_unit(res3, run3)
@@ -254,10 +258,35 @@ def encode_expected(fields, values, flexible, request_header=False):
     if flexible:
         entries = []
         for e in sorted((e for e in fields if e["tag"] is not None), key=lambda e: e["tag"]):
+            if is_default_value(e, values[e["name"]]):
+                continue        # KIP-482: a tagged field at its default value is not sent
             p = enc_field(e, values[e["name"]])
             entries.append(kafka.concrete(("uv",), e["tag"]) + kafka.concrete(("uv",), len(p)) + p)
         out += kafka.concrete(("uv",), len(entries)) + b"".join(entries)
     return out
+
+
+def is_default_value(e, val):
+    """is the neutral sample value the field's default: the definition's explicit one, else the type's zero value"""
+    if e["kind"] != "primitive" or e["array"]:
+        return False
+    d = e["default"]
+    if d == "<absent>":
+        d = {"bool": False, "float64": 0.0, "error_code": 0, "timedelta_i32": ("ms", 0), "timedelta_i64": ("ms", 0),
+             "string": "", "bytes": b"", "records": None, "uuid": None, "datetime_i64": None}.get(e["type"], 0)
+    if isinstance(d, tuple) and d[0] == "raw":
+        return False
+    if isinstance(d, tuple) and d[0] == "ms":
+        return isinstance(val, dict) and val.get("td_ms") == d[1]
+    if isinstance(val, dict):
+        if "enum" in val:
+            return val["enum"] == d
+        if "float" in val:
+            return val["float"] == d
+        if "bytes" in val:
+            return bytes.fromhex(val["bytes"]) == d
+        return False
+    return type(val) is type(d) and val == d
 
 
 def encode_expected_defaults(fields, values, flexible, request_header=False):
@@ -298,7 +327,7 @@ def compare_struct(fail, pre, exp_fields, got, d_name):
         # field without default and a -1-default timestamp are optional)
         conv = e["kind"] == "primitive" and not e["array"] and (e["type"] == "uuid" or (e["type"] == "datetime_i64" and e["default"] is None)
                                                                 or (e["tag"] is not None and e["ignorable"] and e["default"] == "<absent>"
-                                                                    and e["type"] not in D.INTS and e["type"] != "float64"))
+                                                                    and e["type"] in ("string", "bytes", "records", "uuid", "datetime_i64")))
         want_null = e["nullable"] or conv
         got_null = g["nullable"]
         if want_null != got_null:
@@ -314,6 +343,13 @@ def compare_struct(fail, pre, exp_fields, got, d_name):
                 gd = gd["enum"]
             if not (isinstance(ed, tuple) and ed[0] == "raw") and gd != ed:
                 fail(f"{fp}/default", ed, gd)
+        if e["kind"] == "primitive" and not e["array"] and e["tag"] is not None and e["ignorable"] and e["default"] == "<absent>" \
+                and not want_null:
+            # an ignorable tagged field of a type without null: implicit default = the type's zero value
+            zero = {"bool": False, "float64": {"float": 0.0}, "error_code": {"enum": 0}, "timedelta_i32": {"td_ms": 0},
+                    "timedelta_i64": {"td_ms": 0}}.get(e["type"], 0)
+            if g["default"] != zero:
+                fail(f"{fp}/implicit-default-of-ignorable-tagged-field", zero, g["default"])
         if e["kind"] == "struct" and not e["array"] and e["tag"] is not None:
             members = e["fields"]
             all_defaults = members and all(m["kind"] == "primitive" and not m["array"] and m["default"] != "<absent>" for m in members)
@@ -346,7 +382,7 @@ def bounded(rep, tier):
                            capture_output=True, text=True, timeout=900)
         line = [ln for ln in p.stdout.splitlines() if ln.startswith("C16-RESULT ")]
         if p.returncode != 0 or not line:
-            fail("generator-runs-on-well-formed-definitions", "exit 0", (p.returncode, (p.stderr or p.stdout)[-1500:]))
+            fail("generator-runs-on-well-formed-definitions", "exit 0", f"exit {p.returncode}: ..." + (p.stderr or p.stdout)[-270:])
             return 1, fails, defs
         result = json.loads(line[-1][len("C16-RESULT "):])
         expected_modules = {}
@@ -419,6 +455,8 @@ def bounded(rep, tier):
                 except Exception as ex:       # noqa: BLE001
                     fail(f"{pre}/independent-encoder", "encodes", repr(ex))
         # index
+        for name, err in sorted((result.get("package_import_errors") or {}).items()):
+            fail("generated-package-imports", "imports", f"{name}: {err}")
         if result.get("index_error"):
             fail("index-generation-runs", None, result["index_error"])
         idx = result.get("index", {})
